@@ -67,7 +67,7 @@ def run(tier, replay):
         nontriv = sum(1 for c in cases if c["nfields"] < need.get(c["prefix"], 1) or c["prefix"] in ("", "A", "AGGREGATE", "."))
         cov = {"states": r.distinct, "transitions": r.generated, "traces_validated_against_impl": len(cases),
                "evaluations": res["evaluations"] + sres["evaluations"] + ares["evaluations"], "aggregate_payload_shapes": len(agg), "distinct_nontrivial": nontriv,
-               "rule": "cases = 9 prefixes x 1..7 fields x 10 kinds of last field x newline (TLC), each x 3 handlers x 2 colour modes; plus AGGREGATE "
+               "rule": "cases = 9 prefixes x 1..7 fields x 12 kinds of last field x newline (TLC), each x 3 handlers x 2 colour modes; plus AGGREGATE "
                        "payload shapes (3 sample counts x part sequences up to 3 over kv/bare/empty/kvkv x trailing delimiter) through the mapr handler; "
                        "non-trivial = fewer fields than the painter indexes, or an empty/aggregate/hidden prefix",
                "exhaustive": True, "samples": cases[3:5] + [{"random_streams": sres["evaluations"]}]}
